@@ -33,13 +33,15 @@ class Session:
         self.U, self.net = dyn.build(self.uspec, self.build_ops)
         self.engine = make_engine(self.kind)
         self.els = {r: o for r, o in self.U.objs.items() if r[0] in "lod"}
-        # model: identity of each element's own state symbols now and when it was last stepped
-        self.key_at_step = {r: None for r in self.els}
+        # model: has the element been (re-)initialised since it was last stepped?
+        self.inited_since = {r: False for r in self.els}
+        self.ever_stepped = False
         self.keep = []  # keeps every observed object alive so that identities are never recycled
         self.obs = {r: self.observe(o) for r, o in self.els.items()}
         self.clean = None  # the op of the last complete Network.step, if nothing happened since
         self.caller_syms = None
         self.T_sym = None
+        self.all_T_syms = []
         self.torn = False
 
     # -- observation of the variable dicts (S3) -------------------------------------------
@@ -48,40 +50,36 @@ class Session:
         ns = el.next_states
         return (el.states, el.actions, el.disturbances, None if ns is None else tuple(ns.values()))
 
-    def symkey(self, el):
-        """Identity of the symbolic primitives behind the element's own states (CasADi
-        introspection only: symvar + node hash), or None when it has no states."""
-        import casadi as cs
-
-        if el.states is None:
-            return None
-        key = []
-        for name in sorted(el.states):
-            v = el.states[name]
-            if isinstance(v, (cs.SX, cs.MX)):
-                syms = cs.symvar(v)
-                self.keep.append(syms)
-                key.append((name, tuple(x.__hash__() for x in syms)))
-            else:
-                key.append((name, "non-symbolic"))
-        return tuple(key)
-
-    def update_model(self, new_symbols: bool = True):
-        """Compares S3 with the previous observation and advances the readiness model: an
-        element whose next-state objects changed was stepped by this operation, with the
-        state symbols it holds now (Network.step initialises everything before it steps
-        anything, and the per-element step does not touch the states)."""
-        stepped = 0
+    def update_model(self, op_kind: str = "", outcome: str = ""):
+        """Advances the readiness model from (i) what the operation did to S3 -- a variable
+        dict that is a new object means the element was (re-)initialised, next-state objects
+        that changed mean it was stepped -- and (ii) the documented shape of Network.step:
+        it initialises *every* element before it steps *any*, so once one element has been
+        stepped by it (or it completed) all elements were re-initialised by it, and when it
+        completed all elements with states were stepped by it."""
+        refs, _ = self.in_net()
+        reinit, stepped = set(), set()
         for r, el in self.els.items():
             old = self.obs[r]
             new = self.observe(el)
             self.keep.append(old)
+            if any(a is not b for a, b in zip(old[:3], new[:3])):
+                reinit.add(r)
             o_ns, n_ns = old[3], new[3]
             if n_ns is not None and (o_ns is None or len(o_ns) != len(n_ns) or any(a is not b for a, b in zip(o_ns, n_ns))):
-                stepped += 1
-                self.key_at_step[r] = self.symkey(el)
+                stepped.add(r)
             self.obs[r] = new
-        return stepped
+        if op_kind == "step" and (outcome == "ok" or stepped):
+            reinit |= set(refs)
+        if op_kind == "step" and outcome == "ok":
+            stepped |= {r for r in refs if type(self.els[r])._states}
+        for r in reinit:
+            self.inited_since[r] = True
+        for r in stepped:
+            self.inited_since[r] = False
+        if stepped:
+            self.ever_stepped = True
+        return len(stepped)
 
     def in_net(self):
         topo = dyn.topo_of_ops(self.build_ops)
@@ -99,7 +97,7 @@ class Session:
             if decl["states"]:
                 if el.next_states is None:
                     out.append(("unstepped", r))
-                elif self.key_at_step[r] != self.symkey(el):
+                elif self.inited_since[r]:
                     out.append(("reinitialised-after-step", r))
         return out
 
@@ -110,6 +108,7 @@ class Session:
         opts = dict(op["opts"])
         if op.get("symT"):
             self.T_sym = getattr(cs, self.kind.upper()).sym("T")
+            self.all_T_syms.append(self.T_sym)
             opts["T"] = self.T_sym
         else:
             self.T_sym = None
@@ -155,7 +154,7 @@ class Session:
         except Exception as e:
             outcome = "raised:" + type(e).__name__
             self.res.probes["step_" + outcome] += 1
-        self.update_model(new_symbols)
+        self.update_model("step", outcome)
         self.clean = op if outcome == "ok" else None
         if outcome == "ok":
             self.torn = False
@@ -186,7 +185,7 @@ class Session:
             outcome = "ok"
         except Exception as e:
             outcome = "raised:" + type(e).__name__
-        self.update_model(new_symbols)
+        self.update_model("elem_init", outcome)
         self.clean = None
         return outcome
 
@@ -201,7 +200,7 @@ class Session:
         except Exception as e:
             outcome = "raised:" + type(e).__name__
             self.res.probes["elem_step_" + outcome] += 1
-        self.update_model(False)
+        self.update_model("elem_step", outcome)
         self.clean = None
         self.T_sym = None
         return outcome
@@ -210,7 +209,7 @@ class Session:
         dyn.apply_build_op(self.net, self.U, op["build"])
         self.build_ops.append(op["build"])
         self.clean = None
-        self.res.faults["add_after_step" if any(v is not None for v in self.key_at_step.values()) else "add_before_step"] += 1
+        self.res.faults["add_after_step" if self.ever_stepped else "add_before_step"] += 1
         return "ok"
 
     def compile_kwargs(self, op, T_sym):
@@ -260,11 +259,39 @@ class Session:
         free = F.get_free()
         if free:
             raise Violation("C19/free-symbols", f"{where}: returned function has free symbols {free}")
+        self.check_inputs(F, where)
         p["compile_returned"] += 1
         self.res.nontrivial = True
         if self.clean is not None:
             self.compare_with_twin(F, op, where)
         return "returned"
+
+    def check_inputs(self, F, where):
+        """'No free symbols' must not be achieved by turning leftovers into inputs: every
+        symbolic primitive among the inputs of a returned function is a current variable of an
+        element of the network or a parameter that was passed (CasADi introspection only)."""
+        import casadi as cs
+
+        refs, _ = self.in_net()
+        known = set()
+        for r in refs:
+            el = self.els[r]
+            for g in GROUPS:
+                for v in (getattr(el, g) or {}).values():
+                    if isinstance(v, (cs.SX, cs.MX)):
+                        known.update(x.__hash__() for x in cs.symvar(v))
+        for t in self.all_T_syms:  # symbolic parameters are not element variables: never flagged
+            known.update(x.__hash__() for x in cs.symvar(t))
+        ins = F.sx_in() if self.kind == "sx" else F.mx_in()
+        for i, a in enumerate(ins):
+            for x in cs.symvar(a):
+                if x.__hash__() not in known:
+                    raise Violation(
+                        "C19/input-not-a-current-variable",
+                        f"{where}: input #{i} '{F.name_in(i)}' of the returned function contains {x}, which is not a "
+                        "variable currently held by any element of the network (a leftover of an earlier "
+                        "initialisation was turned into an input)",
+                    )
 
     def compare_with_twin(self, F, op, where):
         sop = self.clean
@@ -329,7 +356,7 @@ class Session:
         for r in sorted(refs):
             el = self.els[r]
             out.append((r[0], el.states is not None, el.actions is not None, el.disturbances is not None,
-                        el.next_states is not None, self.key_at_step[r] == self.symkey(el)))
+                        el.next_states is not None, self.inited_since[r]))
         return tuple(sorted(out))
 
 
@@ -404,6 +431,13 @@ def generate(prop: str, run_seed: int, tier: str = "quick") -> dict:
     U = dyn.gen_dyn_universe(rng, ideal_origins=rng.random() < 0.25, big=True)
     U["origins"] += [dyn.gen_origin_spec(rng, f"O{len(U['origins']) + i}", dyn.STEPPABLE_ORIGIN_KINDS) for i in range(2)]
     U["dests"] += [dyn.gen_dest_spec(rng, f"D{len(U['dests']) + i}") for i in range(2)]
+    if rng.random() < 0.3:
+        # colliding names, within and across element kinds (names need not be unique)
+        pool = ["A", "B", "C", "D"][: rng.randint(1, 4)]
+        for key in ("links", "origins", "dests"):
+            for sp in U[key]:
+                if rng.random() < 0.7:
+                    sp["name"] = rng.choice(pool)
     for _ in range(60):
         topo = dyn.gen_dyn_topology(rng, U)
         # keep the initial network steppable and leave spare elements for the builder
